@@ -32,7 +32,7 @@ def one(sid):
             return res
         for chk in meta.get("detected_by", []):
             env = dict(os.environ, VERIF_REPO=wt, VERIF_OUT=out)
-            p = subprocess.run(["/verif/check", chk, "--tier", "quick"], capture_output=True, text=True, env=env)
+            p = subprocess.run(["/verif/check", chk, "--tier", meta.get("tier", "quick")], capture_output=True, text=True, env=env)
             res["checks"][chk] = {"exit": p.returncode, "violations": p.stdout.count("\nVIOLATION") + p.stdout.startswith("VIOLATION")}
     finally:
         subprocess.run(["git", "-C", "/repo", "worktree", "remove", "--force", wt], capture_output=True)
